@@ -270,6 +270,17 @@ func Payloads(t *rapid.T, o Opts) []model.Payload {
 		budget -= s
 		ps = append(ps, p)
 	}
+	// the very same payload once more somewhere in the list (the bridge then uses ONE library object for both places, as a
+	// caller does who appends a payload it already holds: a Notify sent twice, one vendor id before and after)
+	if len(ps) > 0 && len(ps) < o.MaxPayloads && rapid.IntRange(0, 7).Draw(t, "repeat-object") == 7 {
+		src := ps[rapid.IntRange(0, len(ps)-1).Draw(t, "repeat-src")]
+		if s := model.PayloadSize(src); s <= budget && s < 4000 {
+			at := rapid.IntRange(0, len(ps)).Draw(t, "repeat-at")
+			out := append([]model.Payload(nil), ps[:at]...)
+			out = append(out, src)
+			ps = append(out, ps[at:]...)
+		}
+	}
 	return ps
 }
 
